@@ -124,6 +124,8 @@ def judge (goAns : List String) (case : List String) : Option String :=
   | _ => none
 
 def handle (args : List String) : Option String :=
+  -- tokens starting with `#` are tags for the known-findings matcher, not part of the case
+  let args := args.filter (fun t => !t.startsWith "#")
   match args with
   | "judge" :: rest =>
     -- `judge <go answer…> :: <case…>`; the first `::` ends the go answer
